@@ -202,7 +202,7 @@ func rejectPredicates(f *ssa.Function) []string {
 		// accept-style: "if cond { return c }" is the negation of a reject
 		for k, s := range b.Succs {
 			if len(s.Instrs) > 0 {
-				if r, ok := s.Instrs[len(s.Instrs)-1].(*ssa.Return); ok && len(r.Results) == 1 && !isNilConst(r.Results[0]) && len(s.Instrs) <= 2 {
+				if r, ok := s.Instrs[len(s.Instrs)-1].(*ssa.Return); ok && len(r.Results) == 1 && !isNilConst(retVal(r, 0)) && len(s.Instrs) <= 2 {
 					sh := shape(ifi.Cond, 6)
 					if k == 0 {
 						sh = "!" + sh
@@ -290,7 +290,7 @@ func (c *Ctx) waitListIDs() {
 	// fast-path ids: constant first results of returns; registered keys: MapUpdate keys on waitList
 	var fast []int64
 	for _, r := range returnsOf(f) {
-		if k, ok := constInt(r.Results[0]); ok {
+		if k, ok := constInt(retVal(r, 0)); ok {
 			fast = append(fast, k)
 		}
 	}
